@@ -186,6 +186,53 @@ var c10RejectFiles = [][2]string{
 	{"f {0} # {1}\n", "{f a b}"}, {"f {0}\\\n  {1}\\\n", "{f a b}"}, {"f {0}\\\n", "{f a b}"}, // continuation at end of file
 }
 
+// c10JoinCases: backslash continuations whose joint is VISIBLE in the function's value – the text before the
+// `\` (trailing blanks included) and the continuation line (leading blanks stripped) are concatenated
+// verbatim: the joint glued to literal text, preceded by 0, 1, 2 blanks or tabs, the continuation line indented
+// or not, a comment or blanks after the `\`, CRLF line ends, Unicode blanks (which TrimSpace strips at the ends
+// of a physical line but not inside), three-line continuations, a joint inside an argument list.
+func c10JoinCases(r *Rand, tier string) []string {
+	lefts := []string{"{0}/", "a", "x{0}", "{scheme}://{0}/", "[", "{sumi {0}", "{eq {0} \"a", "é"}
+	rights := []string{"{1}", "b", "/{1}]", "{1}} tail", " b\"}", "世"}
+	before := []string{"", " ", "  ", "\t", " \t ", "\u00a0", "\u3000 "}
+	lead := []string{"", " ", "    ", "\t", "\u00a0 ", "\u2003"}
+	after := []string{"", "  ", " # why", "\r", "\t# c \\"}
+	var out []string
+	add := func(file string) {
+		out = append(out, fmt.Sprintf("funcs %d %s %s %s %s", r.Intn(2), HexS(file), HexS("{mk A B}|{mk {0} {1}}"),
+			HexListS([]string{"e0", "e 1"}), HexListS([]string{"scheme", "http"})))
+	}
+	for _, l := range lefts {
+		for _, rt := range rights {
+			braceL, braceR := strings.HasPrefix(l, "{sumi") || strings.HasPrefix(l, "{eq"), strings.HasSuffix(rt, "} tail") || strings.HasSuffix(rt, "\"}")
+			if braceL != braceR { // keep the definitions well formed: an open call is closed by the continuation
+				continue
+			}
+			if strings.HasPrefix(l, "{eq") != strings.HasSuffix(rt, "\"}") {
+				continue
+			}
+			for _, b := range before {
+				for _, ld := range lead {
+					if tier != "thorough" && r.Intn(4) != 0 {
+						continue
+					}
+					a := Pick(r, after)
+					add("mk " + l + b + "\\" + a + "\n" + ld + rt + Pick(r, []string{"\n", "\r\n", "", "  \n"}))
+				}
+			}
+		}
+	}
+	// three physical lines, blank and comment lines in between, a line that is only a backslash
+	for _, f := range []string{
+		"mk a\\\n\\\nb\n", "mk a \\\n  \\\n  b\n", "mk a\\\n\n# c\n  b\\\n c\n", "mk {0}\\\n   -\\\n   {1}\n",
+		"mk a\\\\\nb\n", "mk a\\ \\\nb\n", "mk\\\n x{0}\n", "mk \\\nx{0}\n", "mk  \\\n x{0}\n", "\\\nmk x{0}\n", "  \\  \n  mk x\\\n{0}\n",
+		"mk x # c \\\ny\n", "mk x\\ # c\n y # d\n", "mk x\\\n", "mk x\\", "mk x \\\n\n\n",
+	} {
+		add(f)
+	}
+	return out
+}
+
 func c10NestCases(r *Rand, tier string) []string {
 	g := &c10g{r}
 	n, nt := 120, 700
@@ -219,5 +266,6 @@ func c10NestCases(r *Rand, tier string) []string {
 	for i := 0; i < nt; i++ {
 		out = append(out, c10FtreeCase(r))
 	}
+	out = append(out, c10JoinCases(r, tier)...)
 	return out
 }
